@@ -180,11 +180,22 @@ VARS = ['xa', 'xb', 'xc', 'xd', 'xe', 'xf']
 _parser = [None]
 
 
+CELLS = ['A1', 'B1', 'C1', 'D1', 'E1', 'F1']
+_cellvals = {}
+
+
 def _p():
     if _parser[0] is None:
         common.load_repo()
         import hotxlfp
-        _parser[0] = hotxlfp.Parser()
+        p = hotxlfp.Parser()
+
+        def on_cell(cell, setter):
+            # route 'cell': the arguments are the values of the cells A1..F1, answered by the host's listener
+            if cell.label in _cellvals:
+                setter(_cellvals[cell.label])
+        p.on('callCellValue', on_cell)
+        _parser[0] = p
     return _parser[0]
 
 
@@ -202,8 +213,10 @@ def _pyval(a):
 
 def _eval(formula, values):
     p = _p()
-    for k, v in zip(VARS, values):
+    _cellvals.clear()
+    for k, lab, v in zip(VARS, CELLS, values):
         p.set_variable(k, _pyval(v))
+        _cellvals[lab] = _pyval(v)
     r = p.parse(formula)
     res = r['result']
     if r['error'] is not None:
@@ -230,8 +243,13 @@ def _num(a):
     return None
 
 
-def formula_of(name, args):
-    return '%s(%s)' % (name, ','.join(VARS[:len(args)]))
+def formula_of(name, args, route=None):
+    """the call with its arguments taken from the variables xa.. (default), from the cells A1.. (route cell), or written over
+    several lines with blanks, tabs, LF and CR LF between the tokens (route ws)"""
+    names = CELLS if route == 'cell' else VARS
+    if route == 'ws':
+        return '%s(\n %s )\r\n' % (name, ' ,\t'.join(names[:len(args)])) if args else ' %s( )\n' % name
+    return '%s(%s)' % (name, ','.join(names[:len(args)]))
 
 
 # --------------------------------------------------------------------------- 60-digit reference
@@ -839,7 +857,7 @@ def impl(c):
         name = c['name']
         if c.get('formula'):
             return _eval(c['formula'], c['args'])
-        return _eval(formula_of(name, c['args']), c['args'])
+        return _eval(formula_of(name, c['args'], c.get('route')), c['args'])
     if k == 'ident':
         return [_eval(f, c['args']) for f in IDENT[c['id']]]
     if k == 'rand':
@@ -1324,7 +1342,17 @@ def cases(rng, ctx):
         n_fn, n_id, n_pv, n_rb, draws = 25 * s, 40 * s, 600 * s, 10 * s, 40
     out = gen_fn_cases(rng, n_fn) + gen_ident_cases(rng, n_id) + gen_pv_cases(rng, n_pv) + gen_rand_cases(rng, n_rb, draws)
     out += gen_guard_cases(rng, 2000 if thorough else 40 * s)
-    return out
+    # other routes to the same calls: the arguments as values of cells (answered by the host's listener: 0, 0.0 and FALSE are
+    # values, not blanks), and the call written over several lines
+    routed = []
+    for i, c in enumerate(out):
+        if c['kind'] in ('fn', 'pv', 'abs') and not c.get('formula') and len(c['args']) <= 6:
+            falsy = any((a == 0 and not isinstance(a, str) and a is not None) for a in c['args'] if not isinstance(a, (dict, list)))
+            if i % 9 == 0 or (falsy and i % 2 == 0):
+                routed.append(dict(c, route='cell'))
+            if i % 11 == 0:
+                routed.append(dict(c, route='ws'))
+    return out + routed
 
 
 def search(rng, ctx, disagreeing):
